@@ -164,6 +164,7 @@ type channel struct {
 	untilWrite     bool
 	closed         int32
 	running        int32
+	sendFailed     int32        // set by the sender when a transport write failed
 	closeErr       atomic.Value // closeError, stored by the Close call that took effect
 	writeLock      sync.Mutex   // for sync write
 }
@@ -213,7 +214,7 @@ func (c *channel) Close(err error) {
 		// wait async send finished.
 		if nil != c.writeQueue {
 			var maxWaitNum int
-			for (c.untilWrite || maxWaitNum < 10) && atomic.LoadInt32(&c.running) != idle {
+			for (c.untilWrite || maxWaitNum < 10) && !c.writeQuiescent() {
 				maxWaitNum++
 				time.Sleep(time.Millisecond * 100)
 			}
@@ -227,6 +228,17 @@ func (c *channel) Close(err error) {
 			c.pipeline.FireChannelInactive(err)
 		})
 	}
+}
+
+// writeQuiescent reports whether every accepted packet has been handed to the transport.
+// The queue is observed before the sender flag: the sender releases the flag before it
+// re-checks the queue, so the flag alone can read idle while packets are still queued.
+// After a failed sender nothing more can be delivered, so there is nothing to wait for.
+func (c *channel) writeQuiescent() bool {
+	if 0 != atomic.LoadInt32(&c.sendFailed) {
+		return true
+	}
+	return 0 == len(c.writeQueue) && idle == atomic.LoadInt32(&c.running)
 }
 
 // Writev to write [][]byte for optimize syscall
@@ -575,6 +587,7 @@ func (c *channel) writeOnce() {
 
 	defer func() {
 		if err := recover(); nil != err {
+			atomic.StoreInt32(&c.sendFailed, 1)
 			atomic.StoreInt32(&c.running, idle)
 			c.Close(AsException(err))
 		}
